@@ -22,7 +22,7 @@ const OLS_C: f64 = 1e3;
 /// precision is off by up to (n−1)·ε·mean|x_j| (≥ ½ulp even when compensated), which shifts column j of
 /// Z by up to n·ε·|mean_j|/std_j and enters Zᵀy (the library, legitimately, does not centre y) as Σy·shift.
 const RIDGE_C: f64 = 1e4;
-const MEAN_C: f64 = 100.0;
+const MEAN_C: f64 = 10.0;
 /// standardised designs with max_j |mean_j|/std_j above this get the signature suffix "/mean>10std": the
 /// relative error of a one-pass variance E[x²]−mean² grows like c·ε·(mean/std)² (c ≈ √n typically) and
 /// enters the gradient as 2α·δ_std·‖w_z‖; below the bound that is ≤ c/(100p) of the DESIGN threshold, so
@@ -567,7 +567,7 @@ fn main() {
             "'condition number <= 1e6' is read as the 2-norm condition number of the centred, standardised design (measured); the condition number of the system actually solved ([X 1] for OLS, ZᵀZ+αI for ridge) is measured separately, enters only the solver-agreement tolerances, and cases with cond·eps > 1e-3 are skipped (affects f32 and a few f64 raw-ridge cases)",
             "f32: cond of the generated part <= 30 (raw ridge <= 10) and a common column scale for OLS / raw ridge, so that cond·eps << 1 for the system solved in single precision",
             "'standardised columns' = (x − mean)/std; the statement leaves population vs sample std open, the gradient may vanish under either (the library uses the population std)",
-            "oracle arithmetic is f64 with compensated sums on the already-rounded inputs; tolerances: OLS 1e3(n+p)eps‖A‖_F(‖y‖+‖A‖_F‖w‖); ridge 1e4·p·eps((‖ZᵀZ‖_F+α)‖w_z‖+‖Z‖_F‖y‖) + 100·n·eps·|Σy|·‖(mean_j/std_j)‖ (the second term, standardised columns only, is the backward error of a column mean summed in the working precision; the library does not centre y); intercept 100(n+p)eps·(mean|y|+Σ|w_j|mean|x_j|); predict 1e3(p+2)eps(Σ|x_ij w_j|+|b|); QR=SVD 100(n+p)eps·κ(2‖w‖+(κ+1)‖r‖/σ_max), κ=κ₂([X 1]); Cholesky=SVD 1e3·eps·κ₂(ZᵀZ+αI)‖w_z‖",
+            "oracle arithmetic is f64 with compensated sums on the already-rounded inputs; tolerances: OLS 1e3(n+p)eps‖A‖_F(‖y‖+‖A‖_F‖w‖); ridge 1e4·p·eps((‖ZᵀZ‖_F+α)‖w_z‖+‖Z‖_F‖y‖) + 10·n·eps·|Σy|·‖(mean_j/std_j)‖ (the second term, standardised columns only, is the backward error of a column mean summed in the working precision; the library does not centre y); intercept 100(n+p)eps·(mean|y|+Σ|w_j|mean|x_j|); predict 1e3(p+2)eps(Σ|x_ij w_j|+|b|); QR=SVD 100(n+p)eps·κ(2‖w‖+(κ+1)‖r‖/σ_max), κ=κ₂([X 1]); Cholesky=SVD 1e3·eps·κ₂(ZᵀZ+αI)‖w_z‖",
             "predict is checked on the training matrix X (the statement says predict(X))",
         ],
         families: vec![
